@@ -6,6 +6,9 @@ From RPFT Require Import Base.Sexp Base.PyStr Base.PyStrFacts Base.Result Gen.Ta
      Flow.RowSem Comp.Compile Comp.CompileFacts Comp.CompileIds Comp.CompileInv Comp.CompileClass Comp.Refine Comp.RefineFacts.
 Import ListNotations.
 
+Section WithNames.
+Context {GN : GenNames}.
+
 Definition cuu (sc : cstate) : list id := map cn_uuid (cs_nodes sc).
 
 Lemma class_ok_same cls rt b b' : same_class b b' -> class_ok cls rt b -> class_ok cls rt b'.
@@ -315,3 +318,4 @@ Proof.
   - exact Hrm.
   - exact Hst.
 Qed.
+End WithNames.
